@@ -8,7 +8,11 @@ use std::sync::atomic::{AtomicU64, AtomicUsize, Ordering};
 use std::sync::Mutex;
 use std::time::Instant;
 
-pub const VERIF_DIR: &str = "/verif";
+/// root of the verification tree (evidence/, replays/, known_findings.json); `VERIF_DIR` overrides it so
+/// that background runs from a snapshot do not overwrite the live evidence
+pub fn verif_dir() -> String {
+    std::env::var("VERIF_DIR").unwrap_or_else(|_| "/verif".to_string())
+}
 
 #[derive(Clone, Copy, PartialEq, Eq, Debug)]
 pub enum Tier {
@@ -64,7 +68,7 @@ pub struct Finding {
 }
 
 pub fn load_findings() -> Vec<Finding> {
-    let p = format!("{VERIF_DIR}/known_findings.json");
+    let p = format!("{}/known_findings.json", verif_dir());
     let Ok(s) = std::fs::read_to_string(&p) else {
         return vec![];
     };
@@ -249,7 +253,7 @@ impl Report {
         let mut lines: Vec<String> = vec![];
         let mut known_keys: Vec<String> = vec![];
         let mut new_keys: Vec<String> = vec![];
-        let dir = format!("{VERIF_DIR}/replays/{}", self.id);
+        let dir = format!("{}/replays/{}", verif_dir(), self.id);
         for (key, (count, vs)) in viol.iter() {
             let known = findings
                 .iter()
@@ -320,8 +324,8 @@ impl Report {
             "violations": unlisted,
             "known_finding_cases": listed,
         });
-        let _ = std::fs::create_dir_all(format!("{VERIF_DIR}/evidence"));
-        let path = format!("{VERIF_DIR}/evidence/{}.json", self.id);
+        let _ = std::fs::create_dir_all(format!("{}/evidence", verif_dir()));
+        let path = format!("{}/evidence/{}.json", verif_dir(), self.id);
         if let Err(e) = std::fs::write(&path, serde_json::to_string_pretty(&ev).unwrap() + "\n") {
             eprintln!("MACHINERY-ERROR: cannot write {path}: {e}");
             return 2;
